@@ -1675,7 +1675,7 @@ def oracle_history(objs, st=None, seed=0, label=''):
     evaluator / export results as a fresh object constructed from those parameters."""
     st = st or Stats()
     rng = np.random.default_rng(1000 + seed)
-    for c, q0, cap in objs:
+    for idx, (c, q0, cap) in enumerate(objs):
         q = _copy.deepcopy(q0)
         # first use every evaluator once on the ORIGINAL parameters (so that caches, if any, are populated)
         try:
@@ -1684,7 +1684,7 @@ def oracle_history(objs, st=None, seed=0, label=''):
             pass
         nf = q.nfourier
         x = q.get_dofs().copy()
-        kind = int(rng.integers(0, 4))
+        kind = (idx + seed) % 4          # the four kinds of history are cycled over the objects
         if kind == 0:      # new field unit only (axis unchanged): B0, I2, B2s, B2c times c, p2 times c^2
             cc = float(rng.choice([0.6, 1.4, 2.5]))
             x[4 * nf + 6] *= cc; x[4 * nf + 5] *= cc; x[4 * nf + 2] *= cc; x[4 * nf + 3] *= cc; x[4 * nf + 4] *= cc * cc
